@@ -7,4 +7,5 @@ export GOFLAGS=-mod=mod GOPROXY=off GOSUMDB=off GOTOOLCHAIN=local
 mkdir -p bin evidence
 go build -tags verif -o bin/vcheck-plain ./cmd/vcheck 2>&1 | grep -v -e sqlite3.c -e 'warning:' -e '^ *[0-9|]' -e 'note:' -e '~~~' || true
 go build -tags verif -race -o bin/vcheck-race ./cmd/vcheck 2>&1 | grep -v -e sqlite3.c -e 'warning:' -e '^ *[0-9|]' -e 'note:' -e '~~~' || true
-test -x bin/vcheck-plain
+(cd legacygen && go build -o ../bin/legacygen . ) || true
+test -x bin/vcheck-plain && test -x bin/legacygen
